@@ -34,7 +34,8 @@ Inductive vx :=
 | XMax (args : list vx).
 
 Inductive border := LE | BE | NullBO.
-Inductive skind := KU | KI | KBcd | KFlag | KEnum (signed : bool).
+Inductive skind := KU | KI | KBcd | KFlag | KEnum (signed : bool)
+  | KFloat.   (* FloatView: Read() is the IEEE 754 value of the bit pattern; the model carries the bit pattern *)
 
 Inductive ftype :=
 | FScalar (k : skind) (kbits : Z) (bo : border)
@@ -171,6 +172,7 @@ Definition decode_scalar (k : skind) (kbits : Z) (raw : Z) : value :=
   | KBcd => VInt (bcd_digits 16 raw)
   | KFlag => VBool (negb (raw =? 0))
   | KEnum _ => VEnum raw
+  | KFloat => VInt raw
   end.
 
 (* ---------- results of evaluating a view ---------- *)
